@@ -283,7 +283,7 @@ func newFamily(name string) *family {
 }
 
 func Run(c *core.Ctx) {
-	c.Rule = "histories over 4 scripts (one sharing its name with a class id, one sometimes without a call) x 4 component classes x 4 plain names (one equal to a class id) in all 17 container forms (nested to depth 2) x 3 once handles (block or fixed component, bodies nested to depth 2, possibly using their own handle) x 1-3 contexts (plain or through NewCSSMiddleware with a random class subset, with or without nonce); single-form and form-pair sweeps, all histories up to the tier's length over a 13-use alphabet, random histories; 2-4 page requests through ONE middleware instance (registered and unregistered classes and scripts, pages rendered inside the handler one after the other and concurrently, every pair of the 13 uses split over two requests); probe templates include elements whose class and on* attributes sit under attribute-level if/else blocks nested to depth 3; distinct non-trivial = distinct histories in which some item is used at least twice in one context (suppression matters)"
+	c.Rule = "histories over 4 scripts (one sharing its name with a class id, one sometimes without a call) x 4 component classes x 4 plain names (one equal to a class id) in all 17 container forms (nested to depth 2) x context derivations (WithNonce, WithChildren, ClearChildren, context.WithValue, context.WithCancel) at arbitrary points - before the first registration, between uses, nested - with every use going through any of the Go contexts derived so far; 3 once handles (block or fixed component, bodies nested to depth 2, possibly using their own handle) x 1-3 contexts (plain or through NewCSSMiddleware with a random class subset, with or without nonce); single-form and form-pair sweeps, all histories up to the tier's length over a 13-use alphabet, random histories; 2-4 page requests through ONE middleware instance (registered and unregistered classes and scripts, pages rendered inside the handler one after the other and concurrently, every pair of the 13 uses split over two requests); probe templates include elements whose class and on* attributes sit under attribute-level if/else blocks nested to depth 3; distinct non-trivial = distinct histories in which some item is used at least twice in one context (suppression matters)"
 	c.Trusted = append(c.Trusted,
 		"specification spec/RegistrySpec.v (abstract log, at_most_once, before_first_use, wanted uses, held classes, check_log)",
 		"the reading of a document back into definitions and uses (harness readBack; cross-checked against the model's own log on every history)",
@@ -355,6 +355,20 @@ func Run(c *core.Ctx) {
 		}
 	}
 	rec(nil, maxLen)
+	// a context derived before anything is registered, then every pair of uses through the derived / original one
+	for _, kind := range []string{"nonce", "children", "value", "cancel"} {
+		d := COp{Ctx: 0, Op: Op{Tag: "D", Text: kind, Nonce: "n7"}}
+		via := func(o Op, v int) COp { o.Via = v; return COp{Ctx: 0, Op: o} }
+		for _, a := range alpha {
+			for _, b := range alpha {
+				hs = append(hs, Hist{Cfgs: cfgsets[0], Ops: []COp{d, via(a, 1), via(b, 0)}})
+				if kind == "nonce" {
+					hs = append(hs, Hist{Cfgs: cfgsets[0], Ops: []COp{d, via(a, 0), via(b, 1)}})
+					hs = append(hs, Hist{Cfgs: cfgsets[1], Ops: []COp{d, via(a, 1), via(b, 0)}})
+				}
+			}
+		}
+	}
 	c.Extra["exhaustive_alphabet"] = len(alpha)
 	c.Extra["exhaustive_max_len"] = maxLen
 	c.Extra["exhaustive_histories"] = len(hs)
@@ -426,6 +440,9 @@ func Run(c *core.Ctx) {
 			for i := 1 + r.Intn(5); i > 0; i-- {
 				h.Ops = append(h.Ops, COp{Ctx: k, Op: g.op(2)})
 			}
+		}
+		if r.Intn(2) == 0 {
+			h.Ops = withDerivations(r, h.Ops, nreq)
 		}
 		h.Pages = pages
 		return h
